@@ -507,3 +507,40 @@ func unwrapPassThrough(p *Prog, info *types.Info, e ast.Expr) ast.Expr {
 	}
 	return e
 }
+
+// fieldOrLocalOf: the expression is the field pkg.typ.field, or a local variable whose only definition is that field
+// (`ns := include.Namespace`).
+func fieldOrLocalOf(p *Prog, info *types.Info, e ast.Expr, pkg, typ, field string) bool {
+	if fieldSel(info, e, pkg, typ, field) {
+		return true
+	}
+	v := varOf(info, e)
+	if v == nil || v.IsField() {
+		return false
+	}
+	for _, b := range p.bodies {
+		if b.Decl == nil || b.Body == nil || b.Info() != info || v.Pos() < b.Body.Pos() || v.Pos() > b.Body.End() {
+			continue
+		}
+		if d := singleDef(info, b.Body, v); d != nil && fieldSel(info, d, pkg, typ, field) {
+			return true
+		}
+	}
+	return false
+}
+
+// prefixTest: the if statement tests "x starts with p": `if strings.HasPrefix(x, p)` or `if s, ok := strings.CutPrefix(x, p); ok`.
+// For the second form `cut` is the variable that holds x without the prefix.
+func prefixTest(info *types.Info, ifs *ast.IfStmt) (x, p ast.Expr, cut *types.Var, ok bool) {
+	if call, isCall := ast.Unparen(ifs.Cond).(*ast.CallExpr); isCall && isFunc(callee(info, call), "strings", "", "HasPrefix") && len(call.Args) == 2 {
+		return call.Args[0], call.Args[1], nil, true
+	}
+	if as, isAs := ifs.Init.(*ast.AssignStmt); isAs && len(as.Lhs) == 2 && len(as.Rhs) == 1 {
+		if call, isCall := ast.Unparen(as.Rhs[0]).(*ast.CallExpr); isCall && isFunc(callee(info, call), "strings", "", "CutPrefix") && len(call.Args) == 2 {
+			if okv := varOf(info, as.Lhs[1]); okv != nil && varOf(info, ifs.Cond) == okv {
+				return call.Args[0], call.Args[1], varOf(info, as.Lhs[0]), true
+			}
+		}
+	}
+	return nil, nil, nil, false
+}
